@@ -215,6 +215,18 @@ def main():
                    compare=lambda a, b: strip_idx(a) == strip_idx(b),
                    what="C09Model.step vs shark::CachedMatrix/LRUCache", search=search,
                    keyfn=lambda msg, case: "cache:" + msg)
+    if big and not ck.violations:
+        # supporting runtime evidence for "no request reads or writes outside its buffers": same histories under ASan+UBSan
+        aexe, aerr = cxx_build("c09_cache", [os.path.join(ROOT, "harness", "c09_cache.cpp")], flags=ASAN_FLAGS, tag="asan")
+        if aexe is None:
+            ck.oblige("ASan/UBSan build of the cache harness", False, aerr)
+        else:
+            ao = run_cases(aexe, cases, os.path.join(tmpd, "asan_in.txt"), env={"ASAN_OPTIONS": "detect_leaks=1:abort_on_error=0", "UBSAN_OPTIONS": "print_stacktrace=1"})
+            badc = [i for i, (o, rc, e) in enumerate(ao) if rc != 0]
+            if badc:
+                i = badc[0]; cf = ck.write_replay("asan_case_%d.txt" % i, "\n".join(cases[i]) + "\n")
+                ck.violation("cache:sanitizer", {"case_file": cf, "case": cases[i], "sanitizer_output": ao[i][2]}, "AddressSanitizer/UBSan report while replaying a cache history: " + ao[i][2][-400:])
+            ck.oblige("ASan+UBSan: %d cache histories without report" % len(cases), not badc)
     ops = {}
     for l in flat: ops[l[0]] = ops.get(l[0], 0) + 1
     evict = 0; full = 0
